@@ -351,7 +351,7 @@ class Report:
 
 # ------------------------------------------------------------------ generic stages
 
-def replay_vectors(rep, exe, cmd, vec_file, extra_args=None, timeout=1800, sample_from=None, shards=1):
+def replay_vectors(rep, exe, cmd, vec_file, extra_args=None, timeout=1800, sample_from=None, shards=1, env=None):
     """spec -> code: run the harness over a vector file; tally results into the report.
     shards > 1 splits the vectors over that many harness processes (independent vectors only)."""
     files = [vec_file]
@@ -366,6 +366,8 @@ def replay_vectors(rep, exe, cmd, vec_file, extra_args=None, timeout=1800, sampl
     procs = []
     for vf in files:
         e = dict(GOENV)
+        if env:
+            e.update(env)
         procs.append((vf, subprocess.Popen(["timeout", str(timeout), exe, cmd, vf, vf + ".res"] + (extra_args or []),
                                             env=e, stdout=subprocess.PIPE, stderr=subprocess.PIPE, text=True, errors="replace")))
     n = bad = 0
